@@ -37,6 +37,7 @@ type witness struct {
 
 func main() {
 	r := ev.Start("C01", "exploration")
+	r.Supervise() // a real engine runs in-process: its death is an outcome, observed by a supervising parent
 	r.Rule("layer 1: seeded command histories (1-60 commands over a 6-12 key pool of nasty keys, random apply batches of 1-10 entries, sparse indices) applied to the real FSM; " +
 		"layer 2: the same generator through a real single-node storage.Engine. A history is non-trivial when it contains a range delete, a read-after-write inside one apply batch " +
 		"and a key with a 0x00 or 0xFF byte; distinct by hash of the command list")
